@@ -155,7 +155,7 @@ impl TableBootstrapInner {
             let router_addresses = resolve(&self.routers, self.socket.ip_version()).await;
             #[cfg(not(kani))]
             {
-                self.table.lock().unwrap().routers = router_addresses.clone();
+            self.table.lock().unwrap().routers = router_addresses.clone();
             }
             #[cfg(kani)]
             {
